@@ -240,18 +240,20 @@ impl PublishBuilder {
         } else {
             log::trace!("Publish (QoS-0) to {:?}", self.packet.topic);
 
-            let stream = StreamingPayload {
-                rx: Cell::new(None),
-                shared: self.shared.clone(),
-                inprocess: Cell::new(true),
-            };
-
             self.packet.qos = QoS::AtMostOnce;
             self.packet.payload_size = size;
+            let shared = self.shared.clone();
+
+            // the payload handle exists only if the publish packet is written, dropping
+            // a handle for a refused publish must not abort an unrelated streamed publish
             self.shared
                 .encode_publish(self.packet, None)
                 .map_err(SendPacketError::Encode)
-                .map(|()| stream)
+                .map(|()| StreamingPayload {
+                    rx: Cell::new(None),
+                    shared,
+                    inprocess: Cell::new(true),
+                })
         }
     }
 
